@@ -10,7 +10,7 @@ from base import *  # noqa
 import geodepy.constants as K
 import geodepy.convert as C
 import geodepy.angles as A
-from tm_oracle import (mp, mpf, exact_tm, central_meridian, prj_kind, enc_ell, enc_prj, dec_ell, dec_prj,
+from tm_oracle import (in_own_zone, mp, mpf, exact_tm, central_meridian, prj_kind, enc_ell, enc_prj, dec_ell, dec_prj,
                        src_ell, src_prj, any_ellipsoid, any_projection, random_projection, ISG_ZONES,
                        run_chunks, attach_measured, Sub, rerun_replay, show_replay)
 
@@ -73,7 +73,7 @@ def gen_case(rng, prj=None, ell=None):
         if -180 <= lon < 180 and abs(lon - cm) <= 30:
             break
     lat = pick_lat(rng)
-    auto = abs(lon - cm) <= zw / 2 and rng.random() < 0.5
+    auto = in_own_zone(prj, zone, lon) and rng.random() < 0.5
     return lat, lon, (0 if auto else zone), ell, prj
 
 
@@ -145,7 +145,7 @@ def chunk_exact_shipped(p, n):
             lon = cm - om
         if not (-180 <= lon < 180 and abs(lon - cm) <= 30):
             continue
-        auto = abs(lon - cm) <= zw / 2 and rng.random() < 0.3
+        auto = in_own_zone(prj, zone, lon) and rng.random() < 0.3
         check_exact(p, lat, lon, 0 if auto else zone, ell, prj)
 
 
